@@ -111,7 +111,7 @@ theorem gap_other (log : List Msg) (m : C02.GapSt) (x : Item) (h1 : isProc x = f
 /-- what an accepted block says -/
 theorem gapBlock_ok (log : List Msg) (m : C02.GapSt) (blk : List Msg) (h : (C02.gapBlock log m blk).bad = false) :
     ∃ b bs l, blk = b :: bs ∧ C02.gapRest log b.off bs = some l ∧ (C02.gapBlock log m blk).last = some l ∧
-      (((∃ l0, m.last = some l0 ∧ C02.succIn log l0 = some b) ∧ (C02.gapBlock log m blk).from? = m.from?) ∨
+      (((∃ l0, m.last = some l0 ∧ C02.succIn log l0 = some b) ∧ (m.from? = none → (C02.gapBlock log m blk).from? = none)) ∨
        ((∃ f, m.from? = some f ∧ C02.firstFrom log f = some b) ∧ (C02.gapBlock log m blk).from? = none)) := by
   cases blk with
   | nil => simp [C02.gapBlock] at h
@@ -145,7 +145,7 @@ theorem gapBlock_ok (log : List Msg) (m : C02.GapSt) (blk : List Msg) (h : (C02.
         exact ⟨a1, Or.inr a2⟩
       | some l0 =>
         by_cases hs : C02.succIn log l0 = some b
-        · exact ⟨by simp [C02.gapBlock, hr, hl, hs], Or.inl ⟨⟨l0, rfl, hs⟩, by simp [C02.gapBlock, hr, hl, hs]⟩⟩
+        · exact ⟨by simp [C02.gapBlock, hr, hl, hs], Or.inl ⟨⟨l0, rfl, hs⟩, fun hfn => by simp [C02.gapBlock, hr, hl, hs, hfn]⟩⟩
         · obtain ⟨a1, a2⟩ := second (by intro l1 h1; rw [hl] at h1; cases h1; exact hs)
           exact ⟨a1, Or.inr a2⟩
 
@@ -172,7 +172,7 @@ theorem gap_cont (log : List Msg) : ∀ (post : List Item) (m : C02.GapSt) (l : 
       obtain ⟨b, bs, l', rfl, hr, hlast, hcase⟩ := gapBlock_ok log m _ hb1
       rcases hcase with ⟨⟨l0, hl0, hs⟩, hfrom⟩ | ⟨⟨f, hf', _⟩, _⟩
       · rw [hl] at hl0; cases hl0
-        have ih := gap_cont log post _ l' (hfrom.trans hf) hlast (by simpa using hj.2) hb
+        have ih := gap_cont log post _ l' (hfrom hf) hlast (by simpa using hj.2) hb
         rw [delivered_cons_proc]
         simp only [List.cons_append, chainAfter, hs, beq_self_eq_true, Bool.true_and]
         exact chainAfter_append log bs _ b.off l' hr ih
